@@ -8,6 +8,8 @@ from fractions import Fraction
 
 import numpy as np
 
+from hyverif.core import ND_PRESENTATIONS
+
 ID = "C15"
 SHARDS = {"quick": 8, "thorough": 16}
 BUDGET = {"quick": 300, "thorough": 1800}
@@ -173,6 +175,13 @@ def run_case(ctx, case):
     ctx.check("inside.values-0-1", bool(np.all((got == 0) | (got == 1))),
               "points_inside_polygon|values", case, None)
 
+    # ---- the same coordinates in another memory layout / container (np.array([x, y]).T
+    # is Fortran-ordered)
+    ctx.presentations("points_inside_polygon",
+                      lambda q_, p_: np.asarray(gu.points_inside_polygon(q_, p_)),
+                      [pts, poly], got, case,
+                      np.random.default_rng(int(case.get("seed", 0)) + 1), n=2,
+                      kinds=ND_PRESENTATIONS + ["int"])
     # ---- options: a smaller tolerance and the progress log must not change answers
     for kw in ({"atol": 0.0}, {"atol": 1e-12}, {"nprint": 1}, {"nprint": 7}):
         ctx.api("points_inside_polygon(opts)")
